@@ -76,6 +76,10 @@ class MutableFileNode:
         self._total_shares = default_encoding_parameters["n"]
         self._sharemap = {} # known shares, shnum-to-[nodeids]
         self._most_recent_size = None
+        # the highest sequence number this node object has published under:
+        # the servers that hold those shares may be out of reach of the next
+        # publish's survey, and we must not use the number a second time
+        self._highest_seqnum_used = 0
         # filled in after __init__ if we're being created for the first time;
         # filled in by the servermap updater before publishing, otherwise.
         # set to this default value in case neither of those things happen,
